@@ -5,7 +5,7 @@ From Coq Require Import ZArith NArith List Bool.
 Import ListNotations.
 From Coq Require Import QArith.
 From AV Require Import model.Syntax model.Lexer model.Grammar model.Literal model.Display model.Rat model.UnitTypes model.Map
-  model.Units model.Compound model.UnitWord model.Eval model.Cbor model.Codec.
+  model.Units model.Compound model.UnitWord model.Eval model.Cbor model.Codec model.Cli.
 Open Scope Z_scope.
 
 Definition zs_of_chars (s : list chr) : list Z := map Z.of_N s.
@@ -127,6 +127,31 @@ Definition obs_compound_decode (input : list Z) : list Z :=
 Definition obs_rational_json (input : list Z) : list Z :=
   match input with [n; d] => List.map Z.of_N (json_rational n d) | _ => [-1] end.
 
+(* tag 9: the command line: input = exact, then as tag 4 (debug, describe, facts, source); output = per result: 0, length, characters
+   of the printed line | 1, start, end, error code *)
+Definition dump_item (i : out_item) : list Z :=
+  match i with
+  | Line t => 0 :: Z.of_nat (length t) :: zs_of_chars t
+  | Diagnostic (s, e) k => 1 :: Z.of_N s :: Z.of_N e :: ekind_code k
+  | Crash => [2]
+  end.
+Definition obs_cli (input : list Z) : list Z :=
+  match input with
+  | ex :: dbg :: desc :: nfacts :: rest =>
+      let '(facts, src) := take_facts (Z.to_nat nfacts) 0 rest in
+      let '(rs, _) := query (negb (dbg =? 0)) (negb (desc =? 0)) facts (chars_of_zs src) in
+      Z.of_nat (length rs) :: flat_map dump_item (render (negb (ex =? 0)) rs)
+  | _ => [-1]
+  end.
+
+(* tag 10: generated::unit::parse on UTF-8 bytes; output = 1, bytes consumed, prefix exponent, unit key | 0 *)
+Definition obs_parse_word (input : list Z) : list Z :=
+  let bs := List.map Z.to_N input in
+  match parse_word bs with
+  | Some (rest, e, u) => [1; Z.of_nat (length bs - length rest); e; Z.of_N u]
+  | None => [0]
+  end.
+
 Definition run_case (tag : Z) (input : list Z) : list Z :=
   match tag with
   | 1 => obs_lex_parse (chars_of_zs input)
@@ -137,6 +162,8 @@ Definition run_case (tag : Z) (input : list Z) : list Z :=
   | 6 => obs_compound_bytes input
   | 7 => obs_compound_decode input
   | 8 => obs_rational_json input
+  | 9 => obs_cli input
+  | 10 => obs_parse_word input
   | _ => [-1]
   end.
 
